@@ -620,15 +620,13 @@ func encodeUTF8AddrXtext(raw string) string {
 
 	for _, ch := range raw {
 		switch {
-		case ch >= '!' && ch <= '~' && ch != '+' && ch != '=':
-			// printable non-space US-ASCII except '+' and '='
+		case ch >= '!' && ch <= '~' && ch != '+' && ch != '=' && ch != '\\':
+			// printable non-space US-ASCII except '+', '=' and '\'
 			out.WriteRune(ch)
 		default:
-			out.WriteRune('\\')
-			out.WriteRune('x')
-			out.WriteRune('{')
-			out.WriteString(strings.ToUpper(strconv.FormatInt(int64(ch), 16)))
-			out.WriteRune('}')
+			// EmbeddedUnicodeChar = %x5C.78 "{" HEXPOINT "}", at least
+			// two hex digits
+			fmt.Fprintf(&out, "\\x{%02X}", ch)
 		}
 	}
 	return out.String()
@@ -641,16 +639,14 @@ func encodeUTF8AddrUnitext(raw string) string {
 
 	for _, ch := range raw {
 		switch {
-		case ch >= '!' && ch <= '~' && ch != '+' && ch != '=':
-			// printable non-space US-ASCII except '+' and '='
+		case ch >= '!' && ch <= '~' && ch != '+' && ch != '=' && ch != '\\':
+			// printable non-space US-ASCII except '+', '=' and '\'
 			out.WriteRune(ch)
 		case ch <= '\x7F':
 			// other ASCII: CTLs, space and specials
-			out.WriteRune('\\')
-			out.WriteRune('x')
-			out.WriteRune('{')
-			out.WriteString(strings.ToUpper(strconv.FormatInt(int64(ch), 16)))
-			out.WriteRune('}')
+			// EmbeddedUnicodeChar = %x5C.78 "{" HEXPOINT "}", at least
+			// two hex digits
+			fmt.Fprintf(&out, "\\x{%02X}", ch)
 		default:
 			// UTF-8 non-ASCII
 			out.WriteRune(ch)
